@@ -91,7 +91,7 @@ theorem flatVTy_fst : (t : KTy) → (f : Val) → ∀ kvs, flatVTy t f = .ok kvs
   | .struct _ ms, .struct fs, kvs, h => by simp only [flatVTy] at h; simp [flatTy, flatV_fst ms fs kvs h]
   | .struct _ _, .absent, _, h => by simp [flatVTy] at h
   | .struct _ _, .num _, _, h | .struct _ _, .str _, _, h | .struct _ _, .list _, _, h => by simp [flatVTy] at h
-  | .prim _, _, kvs, h | .str, _, kvs, h | .enum _ _, _, kvs, h | .seq _, _, kvs, h | .arr _ _, _, kvs, h => by
+  | .prim _, _, kvs, h | .str, _, kvs, h | .wstr, _, kvs, h | .union _ _, _, kvs, h | .enum _ _ _, _, kvs, h | .seq _, _, kvs, h | .arr _ _, _, kvs, h => by
     simp [flatVTy] at h; subst h; simp [flatTy]
 end
 
@@ -138,7 +138,9 @@ mutual
 theorem tyK_erase : (t : Ty) → (tyK t).erase = t
   | .prim _ => rfl
   | .str => rfl
-  | .enum _ _ => rfl
+  | .wstr => rfl
+  | .union _ _ => rfl
+  | .enum _ _ _ => rfl
   | .seq el => by simp [tyK, KTy.erase, tyK_erase el]
   | .arr el n => by simp [tyK, KTy.erase, tyK_erase el]
   | .struct x ms => by simp [tyK, KTy.erase, msK_erase ms]
@@ -195,7 +197,7 @@ theorem flatVTy_nonabsent : (t : KTy) → (f : Val) → ∀ kvs, flatVTy t f = .
   | .struct _ ms, .struct fs, kvs, h => by simp only [flatVTy] at h; exact flatV_nonabsent ms fs kvs h
   | .struct _ _, .absent, _, h => by simp [flatVTy] at h
   | .struct _ _, .num _, _, h | .struct _ _, .str _, _, h | .struct _ _, .list _, _, h => by simp [flatVTy] at h
-  | .prim _, _, kvs, h | .str, _, kvs, h | .enum _ _, _, kvs, h | .seq _, _, kvs, h | .arr _ _, _, kvs, h => by
+  | .prim _, _, kvs, h | .str, _, kvs, h | .wstr, _, kvs, h | .union _ _, _, kvs, h | .enum _ _ _, _, kvs, h | .seq _, _, kvs, h | .arr _ _, _, kvs, h => by
     simp [flatVTy] at h; subst h; simp
 end
 
@@ -223,7 +225,7 @@ theorem fixed_ser (cfg : Cfg) (e : Endian) : (t : Ty) → (v : Val) → wfVal cf
     simp only [wfVal] at h
     simp only [fixedSizeTy, Option.some.injEq] at hp
     simp only [ser, wPrim, primBytes_length e pr n h]; omega
-  | .enum hd ls, .num n, h, pos, p, hp => by
+  | .enum hd ls _, .num n, h, pos, p, hp => by
     simp only [wfVal, Bool.and_eq_true, decide_eq_true_eq] at h
     simp only [fixedSizeTy, Option.some.injEq] at hp
     simp only [ser, wPrim, primBytes_length e hd n (enum_primOk hd n h.1.1 h.1.2)]; omega
@@ -246,9 +248,11 @@ theorem fixed_ser (cfg : Cfg) (e : Endian) : (t : Ty) → (v : Val) → wfVal cf
     simp only [ser, hv, if_true]; exact fixed_serF cfg e ms fs h pos p hp
   | .struct .mutable _, _, _, _, _, hp => by simp [fixedSizeTy] at hp
   | .str, _, _, _, _, hp => by simp [fixedSizeTy] at hp
+  | .wstr, _, _, _, _, hp => by simp [fixedSizeTy] at hp
+  | .union _ _, _, _, _, _, hp => by simp [fixedSizeTy] at hp
   | .seq _, _, _, _, _, hp => by simp [fixedSizeTy] at hp
   | .prim _, .str _, h, _, _, _ | .prim _, .list _, h, _, _, _ | .prim _, .struct _, h, _, _, _ | .prim _, .absent, h, _, _, _ => by simp [wfVal] at h
-  | .enum _ _, .str _, h, _, _, _ | .enum _ _, .list _, h, _, _, _ | .enum _ _, .struct _, h, _, _, _ | .enum _ _, .absent, h, _, _, _ => by simp [wfVal] at h
+  | .enum _ _ _, .str _, h, _, _, _ | .enum _ _ _, .list _, h, _, _, _ | .enum _ _ _, .struct _, h, _, _, _ | .enum _ _ _, .absent, h, _, _, _ => by simp [wfVal] at h
   | .arr _ _, .num _, h, _, _, _ | .arr _ _, .str _, h, _, _, _ | .arr _ _, .struct _, h, _, _, _ | .arr _ _, .absent, h, _, _, _ => by simp [wfVal] at h
   | .struct .final _, .num _, h, _, _, _ | .struct .final _, .str _, h, _, _, _ | .struct .final _, .list _, h, _, _, _ | .struct .final _, .absent, h, _, _, _ => by simp [wfVal] at h
   | .struct .appendable _, .num _, h, _, _, _ | .struct .appendable _, .str _, h, _, _, _ | .struct .appendable _, .list _, h, _, _, _ | .struct .appendable _, .absent, h, _, _, _ => by simp [wfVal] at h
@@ -301,10 +305,32 @@ theorem wf_noPanic (cfg : Cfg) : (t : Ty) → (v : Val) → wfVal cfg .v1 t v = 
     simp only [wfVal, Bool.and_eq_true] at h
     have hx : (Ext.mutable == Ext.mutable) = true := by decide
     simp only [serPanics1, hx]; exact wfM_noPanic cfg ms fs h.2
-  | .prim _, _, _ | .str, _, _ | .enum _ _, _, _ => by simp [serPanics1]
+  | .union disc bs, .struct fs, h => by
+    simp only [wfVal] at h
+    split at h
+    · rename_i d bid v
+      simp only [Bool.and_eq_true] at h
+      simp only [serPanics1]
+      exact wfB_noPanic cfg bs bid v h.2
+    · simp at h
+  | .union _ _, .num _, _ | .union _ _, .str _, _ | .union _ _, .list _, _ | .union _ _, .absent, _ => by simp [serPanics1]
+  | .prim _, _, _ | .str, _, _ | .wstr, _, _ | .enum _ _ _, _, _ => by simp [serPanics1]
   | .seq _, .num _, _ | .seq _, .str _, _ | .seq _, .struct _, _ | .seq _, .absent, _ => by simp [serPanics1]
   | .arr _ _, .num _, _ | .arr _ _, .str _, _ | .arr _ _, .struct _, _ | .arr _ _, .absent, _ => by simp [serPanics1]
   | .struct _ _, .num _, _ | .struct _ _, .str _, _ | .struct _ _, .list _, _ | .struct _ _, .absent, _ => by simp [serPanics1]
+theorem wfB_noPanic (cfg : Cfg) : (bs : Bs) → (bid : Nat) → (v : Val) → wfB cfg .v1 bs bid v = true →
+    serPanics1B bs bid v = false
+  | .nil, _, _, _ => by simp [serPanics1B]
+  | .cons id' _ _ t r, bid, v, h => by
+    simp only [wfB] at h
+    simp only [serPanics1B]
+    split
+    · rename_i hq
+      simp only [hq, if_true] at h
+      exact wf_noPanic cfg t v h
+    · rename_i hq
+      simp only [hq, Bool.false_eq_true, if_false] at h
+      exact wfB_noPanic cfg r bid v h
 theorem wfM_noPanic (cfg : Cfg) : (ms : Ms) → (fs : List Val) → wfM cfg .v1 ms fs = true → serPanics1Ms true ms fs = false
   | .nil, [], _ => by simp [serPanics1Ms]
   | .cons id opt mu t r, f :: fs, h => by
